@@ -206,8 +206,68 @@ func runC13(r *ev.Run, thorough bool) {
 	}
 	close(ch)
 	wg.Wait()
+	// long lists (more elements than any plausible block of cells), element lengths cycling with periods 3, 5 and 7
+	for _, n := range []int{2, 3, 8} {
+		for _, pad := range []byte{' ', '0', 0} {
+			for _, left := range []bool{false, true} {
+				for _, count := range []int{65, 130, 200} {
+					for _, period := range []int{3, 5, 7} {
+						if v := c13LongList(n, pad, left, count, period); v != nil {
+							r.Violate(v)
+						}
+						r.AddEvals(1)
+						r.SetDistinctAdd(1)
+					}
+				}
+			}
+		}
+	}
 	r.Sample(map[string]any{"width": 4, "pad": "0x80", "side": "right", "text": "ab", "written": "61628080", "read": "ab"})
 	r.Sample(map[string]any{"width": 2, "pad": "0x30", "side": "left", "text": "a0b", "written": "6130", "read": "a0"})
 	r.Set("bound", map[string]any{"widths": []int{0, 1, 2, 3, 4, 8, 120}, "pads": len(pads), "max_text_len_exhaustive": 2})
 	r.Set("distinct_note", "every enumerated (variant,width,pad,side,text) tuple is distinct by construction; distinct_nontrivial == evaluations")
+}
+
+// c13LongList writes a list of count texts whose lengths cycle 0..width with the given period (BE and LE variants)
+// and compares every cell with the cut/pad specification.
+func c13LongList(n int, pad byte, left bool, count, period int) (v *ev.Violation) {
+	defer func() {
+		if p := recover(); p != nil {
+			v = c13Vio("panic", n, pad, left, nil, "long-list", fmt.Sprint(p))
+		}
+	}()
+	vals := make([]string, count)
+	var want []byte
+	for i := range vals {
+		l := (n * ((count - i) % period)) / (period - 1) // lengths go up and down along the list
+		if l > n {
+			l = n
+		}
+		b := make([]byte, l)
+		for j := range b {
+			b[j] = byte('A' + (i+j)%26)
+		}
+		vals[i] = string(b)
+		want = append(want, rm.FixText(b, n, pad, left)...)
+	}
+	for _, le := range []bool{false, true} {
+		buf := bytes.NewBuffer(bytes.Repeat([]byte{0xAA}, 32)[:0])
+		var err error
+		if le {
+			err = codec.WriteFixedStringListWithPaddingLE[uint16](buf, vals, n, rune(pad), left)
+		} else {
+			err = codec.WriteFixedStringListWithPadding[uint16](buf, vals, n, rune(pad), left)
+		}
+		if err != nil || buf.Len() != 2+len(want) {
+			return c13Vio("write-error", n, pad, left, nil, "long-list", fmt.Sprintf("%d elements, period %d: err=%v, %d bytes", count, period, err, buf.Len()))
+		}
+		if got := buf.Bytes()[2:]; !bytes.Equal(got, want) {
+			i := 0
+			for i < len(want) && got[i] == want[i] {
+				i++
+			}
+			return c13Vio("write-bytes", n, pad, left, []byte(vals[i/n]), "long-list", fmt.Sprintf("%d elements, period %d, le=%v: cell %d is %x, want %x", count, period, le, i/n, got[(i/n)*n:(i/n)*n+n], want[(i/n)*n:(i/n)*n+n]))
+		}
+	}
+	return nil
 }
